@@ -24,6 +24,39 @@ pub fn generate(tier: &str, seed: u64) -> Vec<String> {
                 out.push(format!("c05 op store_chunk c={} data={}", nl(&c), gen_data(&mut rng, &cfg, cs.iter().product())));
             }
         }
+        // shrink-then-regrow on one chunk (the encoding gets shorter, then a later write lands in what used to be its
+        // tail): whole chunk, trailing half := fill, a small write at the front, the leading half := fill, a write at the back
+        if rng.chance(1, 3) {
+            let c: Vec<u64> = gs.iter().map(|&g| rng.below(g.max(1))).collect();
+            let cs = cfg.chunk_origin_shape(&c).1;
+            if !cs.is_empty() && cs[0] >= 2 {
+                let fillv = |n: u64| show_elems(&vec![cfg.fill.1.clone(); n as usize]);
+                let nonfill = |rng: &mut Rng, n: u64| { let xs: Vec<Vec<u8>> = (0..n).map(|_| { let mut e = gen_elem(rng, &cfg); if e == cfg.fill.1 { if let Some(b) = e.first_mut() { if cfg.dtype.name == "bool" { *b ^= 1 } else { *b ^= 0x55 } } else { e.push(b'q') } } e }).collect(); show_elems(&xs) };
+                let tail: u64 = cs.iter().skip(1).product();
+                let h = cs[0] / 2;
+                let zero = vec![0u64; cs.len()];
+                let mut half0 = cs.clone(); half0[0] = h;
+                let mut half1 = cs.clone(); half1[0] = cs[0] - h;
+                let mut s1 = zero.clone(); s1[0] = h;
+                let one: Vec<u64> = vec![1; cs.len()];
+                let mut last: Vec<u64> = cs.iter().map(|&x| x - 1).collect(); if rng.chance(1, 2) { last = s1.clone(); }
+                out.push(format!("c05 op store_chunk c={} data={}", nl(&c), nonfill(&mut rng, cs.iter().product())));
+                out.push(format!("c05 op store_chunk_subset c={} r={}+{} data={}", nl(&c), nl(&s1), nl(&half1), fillv((cs[0] - h) * tail)));
+                out.push(format!("c05 op raw c={}", nl(&c)));
+                out.push(format!("c05 op store_chunk_subset c={} r={}+{} data={}", nl(&c), nl(&zero), nl(&one), nonfill(&mut rng, 1)));
+                out.push(format!("c05 op raw c={}", nl(&c)));
+                out.push(format!("c05 op retrieve_chunk c={}", nl(&c)));
+                out.push(format!("c05 op store_chunk_subset c={} r={}+{} data={}", nl(&c), nl(&zero), nl(&half0), fillv(h * tail)));
+                out.push(format!("c05 op store_chunk_subset c={} r={}+{} data={}", nl(&c), nl(&last), nl(&one), nonfill(&mut rng, 1)));
+                out.push(format!("c05 op raw c={}", nl(&c)));
+                out.push(format!("c05 op retrieve_chunk c={}", nl(&c)));
+            }
+        }
+        // with a value-mapping array->array codec: the value whose ENCODING is the fill value, and the encoded fill value
+        let special: Option<Vec<Vec<u8>>> = if cfg.chain_desc.contains("fso1") && cfg.dtype.name == "int32" {
+            let f = i32::from_le_bytes(cfg.fill.1.clone().try_into().unwrap());
+            Some(vec![f.wrapping_sub(1).to_le_bytes().to_vec(), f.wrapping_add(1).to_le_bytes().to_vec()])
+        } else { None };
         let nops = if thorough { rng.range(1, 12) } else { rng.range(1, 8) };
         for _ in 0..nops {
             // subset writes only: growing, shrinking (to fill / to small constants), overlapping
@@ -33,7 +66,7 @@ pub fn generate(tier: &str, seed: u64) -> Vec<String> {
             let constant = rng.chance(1, 4);
             let mk_data = |rng: &mut Rng, n: u64| -> String {
                 if to_fill { show_elems(&vec![cfg.fill.1.clone(); n as usize]) }
-                else if constant { let e = gen_elem(rng, &cfg); show_elems(&vec![e; n as usize]) }
+                else if constant { let e = match &special { Some(sp) if rng.chance(2, 3) => rng.pick(sp).clone(), _ => gen_elem(rng, &cfg) }; show_elems(&vec![e; n as usize]) }
                 else { gen_data(rng, &cfg, n) }
             };
             if rng.chance(1, 2) {
